@@ -510,13 +510,21 @@ Definition load_f (main : list N) (p : Z) (n : node) : node :=
 Lemma load_f_core main p : keeps_core (load_f main p).
 Proof. intros n. unfold load_f. destruct (on_chain main n); reflexivity. Qed.
 
+Lemma load_keep_lazy_eq l main p n : load_keep_lazy l main p n = load_keep l main p n.
+Proof. unfold load_keep_lazy, load_keep. destruct (on_chain main n); reflexivity. Qed.
+
 Lemma load_nodes_eq sn d :
   load_nodes sn d =
   let l := sn_nodes sn in
   let main := chain_of l (sn_tip sn) in
   let p := (height_of l (sn_tip sn) - d)%Z in
   map (load_f main p) (filter (load_keep l main p) l).
-Proof. reflexivity. Qed.
+Proof.
+  unfold load_nodes. cbv zeta.
+  rewrite (filter_ext _ _ (load_keep_lazy_eq (sn_nodes sn) (chain_of (sn_nodes sn) (sn_tip sn))
+             (height_of (sn_nodes sn) (sn_tip sn) - d)%Z)).
+  reflexivity.
+Qed.
 
 Definition srh_step (main : list N) (acc : Z) (n : node) : Z :=
   if memN (n_hash n) main then acc else n_height n.
